@@ -219,7 +219,7 @@ struct Engine {
   // base-level pre-run on copies of the disjuncts: expected union, or "skip" when the domain rejects the argument
   // Operators known to kill the process at base level are first tried in a forked child, so that the
   // defect is reported from an observed death and the engine survives it.
-  static bool risky(const std::string& name) { return kind == K_BOX && name == "bounded_affine_preimage"; }
+  static bool risky(const std::string& name) { return (kind == K_BOX && name == "bounded_affine_preimage") || (kind == K_OCT && name == "simplify_using_context_assign"); }
   static int crash_probe(const std::function<void()>& f) {
     fflush(0);
     pid_t p = fork();
